@@ -48,6 +48,7 @@ class SimRec:
         self.extra_reset = False  # mesh replaced and nothing solved/restored since
         self.pf_solved = False
         self.lin_dirty = True  # PhaseField: an invalidating mutator happened since the last Solve
+        self.unsaved = False  # a Solve happened since the last Save_Iter / Set_Iter (a discardable attempt)
 
 
 class FreshWorld(World):
@@ -100,6 +101,9 @@ class FreshWorld(World):
         self.E = __import__("EasyFEA")
         self.clock = seams.ClockSeam(ctx, self.E)
         self.solver = seams.SolverSeam(ctx, Solvers)
+        from EasyFEA.Simulations import _simu as _simu_mod
+
+        self.alloc = seams.AllocSeam(ctx, _simu_mod)
         self.beam = None
         if "beam" in cfg:
             from .fresh_beam import BeamFresh
@@ -128,6 +132,7 @@ class FreshWorld(World):
                 self.sims.append(rec)
 
     def close(self):
+        self.alloc.close()
         self.solver.close()
         self.clock.close()
 
@@ -184,7 +189,15 @@ class FreshWorld(World):
         if q:
             op = q.pop(0)
             rec = self.sims[op["s"]] if "s" in op else self.sims[0]
-            if op["op"] == "set_iter":
+            if op["op"] == "gen":
+                used = sorted({r.mesh_i for r in self.sims})
+                return self._finish_op({"op": op["name"]}, op["s"], rec, rng, frng, used[0])
+            elif op["op"] == "set_iter_last":
+                if not rec.iters:
+                    self._queue = []
+                else:
+                    return {"op": "set_iter", "s": op["s"], "i": len(rec.iters) - 1}
+            elif op["op"] == "set_iter":
                 others = [i for i, h in enumerate(rec.iters) if h != rec.hist_i]
                 if not others:
                     self._queue = []
@@ -212,6 +225,13 @@ class FreshWorld(World):
                            {"op": "read", "s": s}, {"op": "coord"}, {"op": "read", "s": s}]
             self._queue[4]["s"] = s
             return {"op": "save_iter", "s": s}
+        if rec.solved and self._well_posed(rec) and rng.random() < 0.04:
+            # a discarded attempt: save, change the loading, solve, go back to the saved iteration, read / solve again
+            self._queue = [{"op": "gen", "name": "dirichlet", "s": s}, {"op": "gen", "name": "solve", "s": s}, {"op": "set_iter_last", "s": s},
+                           {"op": "read", "s": s}, {"op": "read", "s": s}]
+            if not (rec.type == "PhaseField" and not rec.pf_solved):
+                return {"op": "save_iter", "s": s}
+            self._queue = []
         # meshes in use are moved more often than idle ones
         used = sorted({r.mesh_i for r in self.sims})
         mrec_i = used[int(rng.integers(len(used)))] if rng.random() < 0.8 else int(rng.integers(len(self.meshes)))
@@ -325,12 +345,18 @@ class FreshWorld(World):
             op.update(s=s)
             if name == "solve" and self.cfg.get("faults") and frng.random() < 0.25:
                 op["fault"] = {"seam": "solver", "kind": ["memerr", "singular"][int(frng.integers(2))], "k": 1}
+            elif name in ("solve", "kcmf") and self.cfg.get("faults") and frng.random() < 0.3:
+                # the assembly this read triggers is interrupted by a failing allocation; the read is then repeated
+                op["fault"] = {"seam": "alloc", "kind": "memerr", "k": int(frng.integers(1, 6))}
         elif name == "result":
             rs = simlib.sim_results(rec.type, self.dim)
             op.update(s=s, name=rs[int(rng.integers(len(rs)))], nodeValues=bool(rng.integers(2)))
         elif name == "set_iter":
             others = [i for i, h in enumerate(rec.iters) if h != rec.hist_i]
-            if others and rng.random() < 0.7:
+            if rec.unsaved and rng.random() < 0.5:
+                # discard the attempt: back to the last saved iteration (Set_Iter(-1) of a user's retry loop)
+                op.update(s=s, i=len(rec.iters) - 1)
+            elif others and rng.random() < 0.7:
                 op.update(s=s, i=others[int(rng.integers(len(others)))])
             else:
                 op.update(s=s, i=int(rng.integers(len(rec.iters))))
@@ -371,6 +397,29 @@ class FreshWorld(World):
         if self.dim == 2:
             J[:, 2] = 0
         return X + J
+
+    def _interrupted_read(self, rec: SimRec, fault):
+        """An assembly of the live simulation is interrupted by an injected allocation failure.  Nothing is checked
+        here: the point is the *next* read, which must be the one of a freshly built simulation all the same."""
+        live = rec.live
+        if rec.type in simlib.NONLINEAR:
+            return
+        self.alloc.arm(fault)
+        failed = None
+        try:
+            with self.ctx.sut():
+                for pt in live.Get_problemTypes():
+                    live.Get_K_C_M_F(pt)
+        except SutError as e:
+            failed = e
+        finally:
+            pending = self.alloc.disarm()
+        if not pending:
+            if failed is None:
+                raise Violation("fault-swallowed", "an injected allocation failure did not surface from Get_K_C_M_F()")
+            self.ctx.probe("assembly_interrupted_then_repeated")
+        elif failed is not None:
+            raise Violation("live-raises-fresh-succeeds", f"Get_K_C_M_F raised {failed}", failed.site)
 
     def _compare_systems(self, rec: SimRec, what: str):
         F = self.fresh_sim(rec)
@@ -497,6 +546,8 @@ class FreshWorld(World):
             return "ok"
 
         if name == "kcmf":
+            if self.cfg.get("faults") and op.get("fault", {}).get("seam") == "alloc":
+                self._interrupted_read(rec, op["fault"])
             self._compare_systems(rec, "kcmf")
             return "ok"
 
@@ -532,6 +583,7 @@ class FreshWorld(World):
             with ctx.sut():
                 rec.live.Save_Iter()
             rec.iters.append(rec.hist_i)
+            rec.unsaved = False
             return "ok"
 
         if name == "set_iter":
@@ -543,6 +595,7 @@ class FreshWorld(World):
                 rec.live.Set_Iter(op["i"])
             rec.hist_i = h
             rec.lin_dirty = True
+            rec.unsaved = False
             rec.extra_reset = False
             rec.mesh_i = rec.mesh_hist[h]
             if h != cur:
@@ -611,10 +664,13 @@ class FreshWorld(World):
     def _apply_solve(self, rec: SimRec, op):
         ctx = self.ctx
         live = rec.live
+        fault = op.get("fault") if self.cfg.get("faults") else None
+        if fault and fault.get("seam") == "alloc":
+            self._interrupted_read(rec, fault)
+            fault = None
         F = self._compare_systems(rec, "pre-solve")
         before = simlib.get_state(live)
         before_x = simlib.get_extra(live, rec.type)
-        fault = op.get("fault") if self.cfg.get("faults") else None
         if fault:
             self.solver.arm(fault)
         try:
@@ -685,6 +741,7 @@ class FreshWorld(World):
                 refs.require_close("stale-solution", f"{nm} ({pt}) after Solve, live vs fresh [{rec.type}, {rec.algo['algo']}]", a, b, rtol=1e-7, atol=floors[nm])
                 ctx.checked()
         rec.solved = True
+        rec.unsaved = True
         rec.extra_reset = False
         if rec.type == "PhaseField":
             rec.pf_solved = True
